@@ -33,14 +33,18 @@ QuadPerms == [n \in 1..4 |-> [k \in 1..4 |-> ((k - 1 + n - 1) % 4)]]
 \* every hex renumbering is a bijection that maps edges to edges and keeps the handedness
 ASSUME \A n \in 1..24 : { HexPerms[n][k] : k \in 1..8 } = Corners
 ASSUME Cardinality({ HexPerms[n] : n \in 1..24 }) = 24
-\* neighbour of a catalogue cell across its "right" side (x = max): the cell mirrored... simply translated copy for boxes
+\* neighbour of a parallelepiped across its "right" side: the copy translated by the edge 0 -> 1; the two share that side
+ASSUME \A c \in {"cube", "box123", "box511", "sheared"} :
+          LET cell == Catalogue[c] d == << cell[2][1] - cell[1][1], cell[2][2] - cell[1][2], cell[2][3] - cell[1][3] >> IN
+          d[2] = 0 /\ d[3] = 0 /\ \A k \in {1, 4, 5, 8} : << cell[k][1] + d[1], cell[k][2], cell[k][3] >> \in { cell[j] : j \in {2, 3, 6, 7} }
 Neighbour(cell) == LET dx == cell[2][1] - cell[1][1] IN [k \in 1..8 |-> << cell[k][1] + dx, cell[k][2], cell[k][3] >>]
 
 VARIABLE x
 GenInit == x = 0
 GenSpec == GenInit /\ [][UNCHANGED x]_x
 GenEmit == PrintT(ToJson([ hex |-> Catalogue, hexperms |-> HexPerms, quad |-> QuadCat, quadperms |-> QuadPerms,
-                           neighbours |-> [ cube |-> Neighbour(Catalogue.cube), box123 |-> Neighbour(Catalogue.box123) ] ]))
+                           neighbours |-> [ cube |-> Neighbour(Catalogue.cube), box123 |-> Neighbour(Catalogue.box123),
+                                            box511 |-> Neighbour(Catalogue.box511), sheared |-> Neighbour(Catalogue.sheared) ] ]))
 
 \* ---------------------------------------------------------------- judge
 Recs == JsonDeserialize(IOEnv.VERIF_TRACE_FILE).recs
